@@ -8,6 +8,8 @@
     http_proxy.go                   MITMFilter = MITMDomains.Match(req.URL.Hostname()), AllowHTTP = true
     ruleset/regexp.go               RegexpMatcher.match (exclude first, then include)
     tls.go / http_transport.go      TLSClientConfig.Insecure → InsecureSkipVerify
+    internal/martian/proxy_connect.go  clientTLSConfig (a clone per CONNECT), connectHTTP
+    dialvia/http.go                 HTTPSProxy (writes ServerName into the configuration it is given)
   and the library functions the code calls: net.SplitHostPort, net.ParseIP (netip.ParseAddr without
   zone), url.URL.Hostname (stripPort).
 
@@ -346,6 +348,130 @@ def originVerifies (vf : Verifier) (c : Cert) (authority : Bytes) (now : Int) : 
 def interceptedTo (vf : Verifier) (xfp : Bytes) (allowHTTP insecure : Bool) (c : Cert)
     (authority : Bytes) (now : Int) : Outcome :=
   interceptedRequest xfp allowHTTP insecure (originVerifies vf c authority now)
+
+/-! ## Histories on ONE proxy instance: the name an origin is verified for
+
+  The name handed to the verifier is `tls.Config.ServerName` of the configuration the connection is
+  made with.  net/http (`persistConn.addTLS(name)`, `name = cm.tlsHost()`):
+      cfg := cloneTLSConfig(t.TLSClientConfig);  if cfg.ServerName == "" { cfg.ServerName = name }
+  so the ORIGIN's host is filled in only while the transport's configured `ServerName` is empty
+  (forwarder never configures one: `tls.go` `ConfigureTLSConfig`).  The only other user of the
+  transport's TLS configuration is martian's own CONNECT path (`proxy_connect.go`): a CONNECT that is
+  not intercepted and goes through an `https://` upstream proxy calls
+  `dialvia.HTTPSProxy(dial, proxyURL, p.clientTLSConfig())`, which WRITES
+  `tlsConfig.ServerName = proxyURL.Hostname()` into the configuration it is given.
+  `clientTLSConfig()` returns `tr.TLSClientConfig.Clone()`: the TLS client configuration is per
+  connection.  `ConfHandling.shared` is the variant in which it returns the transport's configuration
+  itself; it exists for the witness theorem only (what goes wrong without the clone). -/
+
+/-- how CONNECTs and the transport reach their targets (`--proxy`); the host is `proxyURL.Hostname()` -/
+inductive Upstream where
+  | direct
+  | http (host : Bytes)
+  | https (host : Bytes)
+  | socks5 (host : Bytes)
+  deriving DecidableEq, Repr
+
+/-- what name verification reads of a `tls.Config`: `ServerName` (`[]` = unset) -/
+structure TLSConf where
+  serverName : Bytes
+  deriving DecidableEq, Repr
+
+/-- `Proxy.clientTLSConfig`: a clone of the transport's configuration (the tree) or that
+    configuration itself -/
+inductive ConfHandling where
+  | cloned | shared
+  deriving DecidableEq, Repr
+
+/-- the state of a proxy instance that origin verification can depend on:
+    `http.Transport.TLSClientConfig` -/
+structure Inst where
+  transportConf : TLSConf
+  deriving DecidableEq, Repr
+
+/-- a proxy just started: no `ServerName` configured -/
+def Inst.fresh : Inst := ⟨⟨[]⟩⟩
+
+/-- `dialvia.HTTPSProxy`: `tlsConfig.ServerName = proxyURL.Hostname()` on the configuration it is given -/
+def httpsProxyDialerConf (proxyHost : Bytes) (_given : TLSConf) : TLSConf := ⟨proxyHost⟩
+
+/-- a CONNECT that is not intercepted (`Proxy.connect`: direct dial, `connectHTTP`, `connectSOCKS5`).
+    Only the `https` branch touches a TLS configuration — the one `clientTLSConfig` returned. -/
+def tunnelStep (h : ConfHandling) (up : Upstream) (st : Inst) : Inst :=
+  match up with
+  | .https ph =>
+    match h with
+    | .cloned => st                        -- the write lands in a clone that dies with the dialer
+    | .shared => { transportConf := httpsProxyDialerConf ph st.transportConf }
+  | _ => st
+
+/-- the name a NEW origin connection of the transport is verified for (`addTLS`) -/
+def verifyName (st : Inst) (authority : Bytes) : Bytes :=
+  if st.transportConf.serverName.isEmpty then originVerifyName authority
+  else st.transportConf.serverName
+
+/-- the forwarding outcome with the verification name explicit: request read from an intercepted
+    session, origin presenting `c`, verified for `name` -/
+def interceptedAs (vf : Verifier) (xfp : Bytes) (allowHTTP insecure : Bool) (c : Cert)
+    (name : Bytes) (now : Int) : Outcome :=
+  interceptedRequest xfp allowHTTP insecure (vf c name now)
+
+/-- a plain `GET https://authority/…` (absolute-form, `req.TLS == nil`), verified for `name` -/
+def absoluteAs (vf : Verifier) (allowHTTP insecure : Bool) (c : Cert) (name : Bytes) (now : Int) :
+    Outcome :=
+  forward (fixScheme https [] false allowHTTP) insecure (vf c name now)
+
+/-- a request that makes the transport open a new TLS connection to an origin -/
+structure OriginReq where
+  authority : Bytes        -- `Host` / URL authority
+  cert : Cert              -- what the origin presents
+  now : Int
+  deriving Repr
+
+/-- what clients do to one proxy instance, as far as origin verification can tell -/
+inductive Event where
+  | tunnel (authority : Bytes)        -- CONNECT excluded by mitm-domains: tunnelled through `Upstream`
+  | intercepted (r : OriginReq)       -- request read from an intercepted session, fresh origin connection
+  | absolute (r : OriginReq)          -- plain `GET https://…`, fresh origin connection
+  deriving Repr
+
+inductive EvOut where
+  | tunnelled
+  | origin (verifiedFor : Bytes) (o : Outcome)
+  deriving DecidableEq, Repr
+
+def evStep (h : ConfHandling) (up : Upstream) (vf : Verifier) (allowHTTP insecure : Bool)
+    (st : Inst) : Event → Inst × EvOut
+  | .tunnel _ => (tunnelStep h up st, .tunnelled)
+  | .intercepted r =>
+    let n := verifyName st r.authority
+    (st, .origin n (interceptedAs vf [] allowHTTP insecure r.cert n r.now))
+  | .absolute r =>
+    let n := verifyName st r.authority
+    (st, .origin n (absoluteAs vf allowHTTP insecure r.cert n r.now))
+
+/-- state after a history -/
+def histState (h : ConfHandling) (up : Upstream) (vf : Verifier) (allowHTTP insecure : Bool) :
+    Inst → List Event → Inst
+  | st, [] => st
+  | st, e :: es => histState h up vf allowHTTP insecure (evStep h up vf allowHTTP insecure st e).1 es
+
+/-- what every event of a history gets, in order -/
+def runHist (h : ConfHandling) (up : Upstream) (vf : Verifier) (allowHTTP insecure : Bool) :
+    Inst → List Event → List EvOut
+  | _, [] => []
+  | st, e :: es =>
+    let r := evStep h up vf allowHTTP insecure st e
+    r.2 :: runHist h up vf allowHTTP insecure r.1 es
+
+/-- the property's reading, history-free: every origin is verified for ITS OWN host -/
+def specOut (vf : Verifier) (allowHTTP insecure : Bool) : Event → EvOut
+  | .tunnel _ => .tunnelled
+  | .intercepted r =>
+    .origin (originVerifyName r.authority) (interceptedTo vf [] allowHTTP insecure r.cert r.authority r.now)
+  | .absolute r =>
+    .origin (originVerifyName r.authority)
+      (absoluteAs vf allowHTTP insecure r.cert (originVerifyName r.authority) r.now)
 
 end C07
 end FwdVerif
